@@ -8,7 +8,7 @@ import "golang.org/x/tools/go/ssa"
 // that key as a parameter, so the contract is visible in the shape of the code:
 //
 //	create     every success path stores table[key-param] and the stored value is built from the request parameter
-//	get        every success path has looked table[key-param] up and returns what it found there
+//	get        every success path has looked table[key-param] up and returns what it found there; no table is modified
 //	delete     every success path deletes table[key-param]
 //	invalidate every success path rewrites or deletes table[key-param]
 //
@@ -53,6 +53,10 @@ func checkStoreKeyed(c *Ctx, rule string, rows ...storeRow) {
 					continue
 				}
 				tbl := e.Args[0].Name
+				if mut && (m.op == "get" || m.op == "lookup") {
+					ok, w, why = false, p, "a read modifies "+tbl+" (the record must outlive failed attempts)"
+					continue
+				}
 				if tbl != m.table {
 					if mut && !hasStr(m.also, tbl) {
 						ok, w, why = false, p, "modifies "+tbl+", which is not the table of "+m.meth
